@@ -257,6 +257,10 @@ def discriminating_path(
     explored_nodes.add(u)
     explored_nodes.add(a)
 
+    # u must be adjacent to c
+    if c not in graph.neighbors(u):
+        return found_discriminating_path, disc_path, explored_nodes
+
     # a must be a parent of c
     if not graph.has_edge(a, c, graph.directed_edge_name):
         return found_discriminating_path, disc_path, explored_nodes
